@@ -85,6 +85,57 @@ def norm(txt: str) -> str:
 K_DECL = re.compile(r"(static\s+)?(?:const\s+)?(?:realtype|double)\s+k\s*\[\s*NREACTIONS\s*\]\s*(=\s*\{\s*0\.0\s*\})?\s*;")
 
 
+def runtime_traces(ctx: Ctx, rng, tid0: int, n: int):
+    """compile the generated rates + Fex against the stand-in and call Fex at a SEQUENCE of temperatures in one process:
+    reaction i is X_i -> Y_i over its own species, so ydot[Y_i] = k_i exposes every rate coefficient"""
+    import json
+    import subprocess
+    from common import SHIM, compile_cpp
+    from naunet.network import Network
+    out = []
+    for q in range(n):
+        wins = [rng.choice(WINDOWS) for _ in range(rng.randint(3, 6))]
+        cuts = sorted(rng.sample([10.0, 50.0, 300.0, 1000.0], 3))
+        wins += list(zip(cuts, cuts[1:]))                       # an adjacent pair
+        elems = ["H", "C", "N", "O", "S", "F", "P", "He", "Na", "Mg", "Si", "Cl", "Ar", "Ca", "Fe", "Ni"]
+        recs = [{"r": [elems[i]], "p": [elems[i] + "2"] if False else [elems[i] + "+"], "a": 1.0 + i, "b": 0.0, "c": 0.0, "tmin": lo, "tmax": hi, "idx": i + 1, "code": 100}
+                for i, (lo, hi) in enumerate(wins)]
+        d = ctx.sub("rt_in") / str(q)
+        d.mkdir()
+        (d / "n.naunet").write_text("\n".join(encoders.native(r) for r in recs) + "\n")
+        net = Network(filelist=str(d / "n.naunet"), fileformats="naunet")
+        proj = ctx.scratch / "rt" / str(q)
+        render(net, "cvode", "dense", proj)
+        macros = creader.parse_macros((proj / "include/naunet_macros.h").read_text())
+        exe = ctx.scratch / f"fexdrv_{q}"
+        srcs = [proj / "src" / f for f in ("naunet_fex.cpp", "naunet_rates.cpp", "naunet_constants.cpp", "naunet_physics.cpp", "naunet_utilities.cpp")]
+        p = compile_cpp(srcs + [SHIM / "fex_driver.cpp"], [SHIM / "include", proj / "include"], exe)
+        if p.returncode != 0:
+            ctx.violation("C06|Compile|runtime", "generated rates/fex do not compile against the stand-in: " + p.stderr[-600:], {"lines": [encoders.native(r) for r in recs]})
+            continue
+        temps = []
+        for lo, hi in wins:
+            for b in (lo, hi):
+                if b > 0:
+                    temps += [b - 0.01, b, b + 0.01]
+        temps += [1.0, 5.0e4]
+        rng.shuffle(temps)
+        tf = d / "temps.txt"
+        tf.write_text("\n".join(repr(t) for t in temps) + "\n")
+        pr = subprocess.run([str(exe), str(tf)], capture_output=True, text=True, timeout=120)
+        if pr.returncode != 0:
+            raise MachineryError(f"fex driver failed: {pr.stderr[-300:]}")
+        from naunet.species import Species
+        prod_slot = [macros["IDX_" + Species(r["p"][0]).alias] for r in recs]
+        ev = []
+        for line in pr.stdout.splitlines():
+            e = json.loads(line)
+            ev.append({"act": "Eval", "T": int(round(e["T"] * 100)), "active": [i + 1 for i, s in enumerate(prod_slot) if e["ydot"][s] != 0.0]})
+        out.append({"tid": tid0 + len(out) + 1, "R": [{"tmin": int(round(r["tmin"] * 100)), "tmax": int(round(r["tmax"] * 100)), "idx": r["idx"]} for r in recs],
+                    "mods": [], "ev": ev, "be": "runtime"})
+    return out
+
+
 def main(ctx: Ctx) -> int:
     import_naunet()
     from naunet.network import Network
@@ -149,6 +200,8 @@ def main(ctx: Ctx) -> int:
             traces.append({"tid": tid, "R": [{"tmin": dd["tmin"], "tmax": dd["tmax"], "idx": dd["idx"]} for dd in case["declared"]],
                            "mods": sorted(case["mods"]), "ev": ev, "be": tag})
             meta[tid] = case
+    if pid == "C06":
+        traces += runtime_traces(ctx, rng, len(traces), 2 if ctx.quick else 10)
     v = validate_traces(ctx, "Trace_Rates.tla", "Trace_Rates.cfg", traces, "rates", chunk=1500)
     cov["traces_validated_against_impl"] = len(traces)
     cov["traces_accepted"] = v["accepted"]
@@ -165,6 +218,10 @@ def main(ctx: Ctx) -> int:
         tr = bytid[t]
         at = max(1, min(rj["at"], len(tr["ev"])))
         e = tr["ev"][at - 1]
+        if tr["be"] == "runtime":
+            ctx.violation(f"C06|{clause}|runtime", f"compiled Fex called in sequence: at T={e.get('T', 0) / 100} the active reactions were {e.get('active')} "
+                          f"for windows {tr['R']}: {rj['clauses']}", {"trace": tr, "clauses": rj["clauses"]})
+            continue
         dd = meta[t]["declared"][e["i"]] if e["act"] == "Assign" and e["i"] < len(meta[t]["declared"]) else {}
         feat = f"fmt={dd.get('fmt', '?')}"
         ctx.violation(f"{pid}|{clause}|{feat}", f"{tr['be']}: statement {e} against declared {dd}: {rj['clauses']}",
